@@ -876,6 +876,8 @@ def queries(draw, schema: Schema, feat: Features = None, fuel_range=(1, 3), extr
     if feat.plumbing:
         shape_opts.append((3, "plumb"))
         shape_opts.append((1, "handon"))
+    if feat.first and feat.plumbing:
+        shape_opts.append((1, "firstrow"))
     shape = g.weighted(shape_opts)
     force_handon = shape == "handon"  # one sequence handed on bare to the second lambda, which iterates it inside its own loop
     if force_handon:
@@ -891,10 +893,34 @@ def queries(draw, schema: Schema, feat: Features = None, fuel_range=(1, 3), extr
     form = g.weighted([(3, "bare"), (4, "tuple"), (1, "list"), (3, "dict")])
     if ncols > 1 and form == "bare":
         form = "tuple"
+    if shape == "firstrow":
+        # the row is the FIRST element of a sequence of tuples / dicts of numbers
+        e = g.newvar([], "e")
+        os_ = g.objseq([(e, TEvt())], max(fuel - 1, 0))
+        if os_ is None:
+            shape = "event"
+        else:
+            j = g.newvar([], "j")
+            ncols = max(ncols, 2)
+            vals = [g.num([(j, TObj(os_[1]))], 1) for _ in range(ncols)]
+            if g.chance(1, 2):
+                keys = [f"k{i}" for i in range(ncols)]
+                body = "{" + ", ".join(f"{k!r}: {v[0]}" for k, v in zip(keys, vals)) + "}"
+                cols = [(k, TNum(v[1])) for k, v in zip(keys, vals)]
+            else:
+                body = "(" + ", ".join(v[0] for v in vals) + ")"
+                cols = [(f"col{i}", TNum(v[1])) for i, v in enumerate(vals)]
+            form = "tuple"
+            text = f"Select({src}, lambda {e}: {os_[0]}.Select(lambda {j}: {body}).First())"
+            g.labels.add("First")
+            g.labels.add("First-of-tuples-row")
+            g.nops += 2
     if shape == "event":
         e = g.newvar([], "e")
         body, cols = g.row([(e, TEvt())], fuel, ncols, form)
         text = f"Select({src}, lambda {e}: {body})"
+    elif shape == "firstrow":
+        pass
     elif shape == "object":
         e = g.newvar([], "e")
         os_ = g.objseq([(e, TEvt())], fuel - 1)
@@ -935,7 +961,8 @@ def queries(draw, schema: Schema, feat: Features = None, fuel_range=(1, 3), extr
         g.safe -= 1
         use_dict = g.chance(1, 2)
         t = g.newvar([], "t")
-        if n_items == 1 and (force_handon or g.chance(1, 2)) and ".Where(" in items[0][0] and isinstance(items[0][1], TSeq):
+        want_bare = n_items == 1 and (force_handon or g.chance(1, 2))
+        if want_bare and ".Where(" in items[0][0] and isinstance(items[0][1], TSeq):
             # recorded finding handed-on-filtered-sequence: a FILTERED sequence handed on bare and filtered again in two places of the second
             # lambda is fused by func_adl on shared nodes (the package does not compile): hand it on inside a tuple instead (counted)
             g.excluded["handed-on-filtered-sequence"] = g.excluded.get("handed-on-filtered-sequence", 0) + 1
@@ -943,7 +970,7 @@ def queries(draw, schema: Schema, feat: Features = None, fuel_range=(1, 3), extr
             first = "(" + items[0][0] + ",)"
             acc = [f"{t}[0]"]
             g.labels.add("plumbing-tuple")
-        elif n_items == 1 and (force_handon or g.chance(1, 2)):
+        elif want_bare:
             # the value itself is handed on (no tuple around it): the second lambda then works on ONE node, however often it mentions it
             first = items[0][0]
             acc = [t]
